@@ -1,4 +1,5 @@
 """C19  Tables of entries behave like column-aligned NumPy records."""
+import copy
 import dataclasses
 import os
 import traceback
@@ -25,7 +26,7 @@ ASSUMPTIONS = [
     "pandas round trips are checked for column types pandas can carry (no list-valued or quality columns).",
 ]
 REQUIRED_CLASSES = ["table-read-from-file", "dict-roundtrip", "bam", "concat", "sort_by", "replace", "add_fields", "pandas", "from_entry_tuples", "bad-construction", "empty-operand", "single-row-operand",
-                    "dynamic-class", "nested-table", "mixed-dtype-concat", "int-index", "rows-taken-by-tolist-first", "text-column-given-as-64-bit-character-codes"]
+                    "dynamic-class", "nested-table", "mixed-dtype-concat", "int-index", "rows-taken-by-tolist-first", "text-column-given-as-64-bit-character-codes", "results-reach-later-steps-unread"]
 BOUNDS = {"quick": "300 programs of up to 12 steps for each of 16 table types, tables of up to 6 rows", "thorough": "4000 programs of up to 30 steps per type, tables of up to 20 rows"}
 BUDGET_S = {"quick": 200, "thorough": 1500}
 
@@ -187,6 +188,8 @@ def classify(case):
         cl.append("table-read-from-file")
     if case["rows"] and not case.get("from_file") and any(op["op"] == "replace" and op.get("seed", 1) % 3 == 0 for op in case["program"]):
         cl.append("replace-text-column-with-dna-encoded-column")
+    if case.get("unread_results") and case["rows"] and len(case["program"]) >= 2:
+        cl.append("results-reach-later-steps-unread")
     if case.get("tolist_first") and case["rows"]:
         cl.append("rows-taken-by-tolist-first")
     if case.get("variant") == 2 and case["rows"] and any(k in ("str", "seq", "seq1") for _, k in kinds_of(tname)):
@@ -231,6 +234,13 @@ def check(case, stats=None):
     out = []
 
     def verify(table, rows, op):
+        if case.get("unread_results"):
+            # what is read is a deep copy, so that the table kept for later steps reaches them as the operation left it
+            # (reading a column that is a lazy view flattens it in place)
+            try:
+                table = copy.deepcopy(table)
+            except Exception:
+                pass
         if case.get("tolist_first") and len(rows):
             # the rows as tolist() hands them out, taken before anything else has looked at the table
             try:
@@ -532,7 +542,7 @@ def c19_case(draw, tname, max_rows, max_steps):
             row[8] = draw(st.text(alphabet="!5I~#", min_size=len(row[7]), max_size=len(row[7])))
         rows.append(row)
     return {"type": tname, "rows": rows, "variant": draw(st.sampled_from([0, 1, 2])), "program": draw(st.lists(op_strategy(), min_size=1, max_size=max_steps)),
-            "from_file": tname in FILE_TYPES and draw(st.integers(0, 2)) == 0, "tolist_first": draw(st.integers(0, 2)) == 0}
+            "from_file": tname in FILE_TYPES and draw(st.integers(0, 2)) == 0, "tolist_first": draw(st.integers(0, 2)) == 0, "unread_results": draw(st.booleans())}
 
 
 def task_type(stats, known_open, tname, n, seed, max_rows, max_steps):
